@@ -194,6 +194,24 @@ pub fn c07_pair_obs(kind: Kind, a: &[u8], b: &[u8]) -> Guard<PairObs> {
 	})
 }
 
+/// ALIASED operands: `b` is a proper prefix (or suffix) of `a`; the second value is parsed from
+/// that part of a's own buffer, so both values start (or end) at the same address. Returns
+/// (x == y, y == x, cmp == Equal).
+pub fn c07_alias_obs(kind: Kind, a: &[u8], b: &[u8], at_start: bool) -> Option<Guard<(bool, bool, bool)>> {
+	if matches!(kind, Kind::Scheme | Kind::Port) {
+		return None;
+	}
+	let sa = inp(a)?;
+	Some(guard(|| {
+		with_ty!(kind, T, {
+			let x: &T = T::new(sa).ok().expect("valid");
+			let part = if at_start { &sa[..b.len()] } else { &sa[sa.len() - b.len()..] };
+			let y: &T = T::new(part).ok().expect("valid");
+			(x == y, y == x, x.cmp(y) == Ordering::Equal)
+		})
+	}))
+}
+
 /// Owned-type observations (all kinds except Path, whose owned type is not comparable).
 pub fn c07_pair_obs_owned(kind: Kind, a: &[u8], b: &[u8]) -> Option<Guard<PairObs>> {
 	macro_rules! go {
@@ -303,6 +321,28 @@ pub fn c07_pair(kind: Kind, a: &[u8], b: &[u8], out: &mut Vec<Violation>) -> u64
 			}
 		}
 		Guard::Panic(pm) => out.push(mk("eq", "panic").feat("panic_at", panic_site(&pm)).obs(format!("panic: {pm}")).exp("comparison terminates without panicking")),
+	}
+	// operands that share a buffer (same start or same end address, different lengths)
+	if a.len() != b.len() {
+		for at_start in [true, false] {
+			if (at_start && a.starts_with(b)) || (!at_start && a.ends_with(b)) {
+				if let Some(g) = c07_alias_obs(kind, a, b, at_start) {
+					n += 1;
+					match g {
+						Guard::Ok((xy, yx, ce)) => {
+							if xy != want || yx != want || ce != want {
+								out.push(
+									mk("eq-aliased", if at_start { "same-start-address" } else { "same-end-address" })
+										.obs(format!("a == b {xy}, b == a {yx}, cmp == Equal {ce}"))
+										.exp(want),
+								);
+							}
+						}
+						Guard::Panic(pm) => out.push(mk("eq-aliased", "panic").feat("panic_at", panic_site(&pm)).obs(format!("panic: {pm}")).exp("comparison terminates without panicking")),
+					}
+				}
+			}
+		}
 	}
 	if let Some(g) = c07_pair_obs_owned(kind, a, b) {
 		n += 1;
